@@ -2440,7 +2440,13 @@ def r106(P, rep):
             continue
         pushes = [e for e in ctx.events if e[0] == 'push']
         inputs = [e[2] for e in pushes if e[1] == '&input_paths']
-        consumed = VAL not in inputs
+        # the value counts as taken for an input file when it is appended to input_paths by the statement that appends plain input files (the one that
+        # appends `in.c`); a handler that consumes the value and files it among the inputs itself, to keep its position for the linker (-Xlinker, like -l), has consumed it
+        plain = set((e[3], e[4]) for e in pushes if e[1] == '&input_paths' and e[2] == 'in.c')
+        if plain:
+            consumed = not any(e[1] == '&input_paths' and e[2] == VAL and (e[3], e[4]) in plain for e in pushes)
+        else:
+            consumed = VAL not in inputs
         line = where
         if consumed and not in_table:
             rep.ob('R10.6', 'main.c:take_arg:missing-from-table/%s' % o, False,
